@@ -22,6 +22,18 @@ pub enum GitInputSelector {
     Reference(String),
 }
 
+/// Is the git tree entry at `filepath` selected by `dir` and `extension`?
+///
+/// This is the same rule as filesystem storage has ([`tackler_rs::get_paths_by_ext`]
+/// on a checkout of the tree): `dir` must be a prefix of the path by whole path
+/// components (`txns` does not select `txns2/a.txn` or `txnsfoo.txn`), and the
+/// file's real extension must be equal to `extension` (`txn` does not select
+/// `ctxn`, `d.notxn` or `.txn`).
+fn is_txn_path(filepath: &[u8], dir: &str, extension: &str) -> Result<bool, tackler::Error> {
+    let path = git::path::try_from_byte_slice(filepath)?;
+    Ok(path.starts_with(dir) && path.extension().is_some_and(|ext| ext == extension))
+}
+
 pub fn string_to_txns(
     input: &mut &str,
     settings: &mut Settings,
@@ -110,12 +122,10 @@ pub fn git_to_txns(
         .files()?
         .iter()
         .map(|entry| {
-            use git::objs::tree::EntryKind::{Blob, Link};
+            use git::objs::tree::EntryKind::{Blob, BlobExecutable, Link};
             match EntryKind::from(entry.mode) {
-                Blob => {
-                    if entry.filepath.starts_with(str::as_bytes(dir))
-                        && entry.filepath.ends_with(str::as_bytes(extension))
-                    {
+                Blob | BlobExecutable => {
+                    if is_txn_path(&entry.filepath, dir, extension)? {
                         let obj = repo.find_object(entry.oid)?;
                         // perf: let ts_par_start = SystemTime::now().duration_since(UNIX_EPOCH).unwrap(/*:test:*/);
 
